@@ -16,6 +16,12 @@ def builds_needed(tier):
     return ["rel"]
 
 
+# Own corpus re-run on other builds of the crate (mc/core.py: extra builds). Every observation is compared with the same model.
+def extra_builds(tier):
+    return [("relchk", None), ("avx2", None)]
+
+
+
 def bounds(tier):
     return {"shapes": "{0,1,16,17,64}^2" + (" + {15,63,65,257} crosses" if tier == "thorough" else ""), "tag_bits": 128, "nonce_bits": 96,
             "key_bits": "all", "interfaces": ["one-shot", "incremental whole", "incremental split"]}
@@ -25,7 +31,7 @@ def validate_models(tier):
     selfcheck.check_poly()
 
 
-def shards(tier):
+def _own_shards(tier):
     base = (0, 1, 16, 17, 64)
     sh = []
     for kl in (32, 16):
@@ -160,3 +166,15 @@ def shard_shape(arg, tier):
     ck.run(cases, nontrivial=lambda ops, meta: bool(meta and meta.get("mut")))
     ck.stats.states = len(cases) + 1
     return ck.stats
+
+
+def shards(tier):
+    from props import c05
+    # the AEAD tag is a Poly1305 tag under a one-time key the caller cannot choose: the rare accumulator states of the MAC
+    # (limb carries, the 2^130 wrap, the final conditional subtraction) are therefore driven on the MAC directly, as a component
+    return _own_shards(tier) + [("shard_poly_component", ("shard_limbs", i)) for i in range(c05.NLIMB)] + [("shard_poly_component", ("shard_crafted", None))]
+
+
+def shard_poly_component(arg, tier):
+    from mc import multi
+    return multi.run_component("c05", arg[0], arg[1], tier, PROPERTY_ID)
